@@ -6,10 +6,25 @@ use serde_json::json;
 
 /// Run until convergence + stability window; judge against T_conv.
 pub fn converge_case(cfg: &RingCfg, sim: &mut Sim, obs: &mut Obs) -> CaseResult {
-    let expect = cfg.sorted_addrs();
-    let pop_stable_at = cfg.stations.iter().map(|s| s.online_at_us).max().unwrap_or(0);
-    let deadline = pop_stable_at + t_conv_us(cfg);
-    let n = cfg.stations.len();
+    converge_case_leave(cfg, sim, None, obs)
+}
+
+/// `leave`: station index and instant at which it leaves the bus for good (the last change of the
+/// population); the bound then counts from there, plus the time the others need to notice a token
+/// that left with it.
+pub fn converge_case_leave(cfg: &RingCfg, sim: &mut Sim, leave: Option<(usize, i64)>, obs: &mut Obs) -> CaseResult {
+    let mut expect = cfg.sorted_addrs();
+    let mut pop_stable_at = cfg.stations.iter().map(|s| s.online_at_us).max().unwrap_or(0);
+    let mut extra = 0;
+    if let Some((k, at)) = leave {
+        expect.retain(|a| *a != cfg.stations[k].addr);
+        pop_stable_at = pop_stable_at.max(at);
+        let a_max = i64::from(*expect.last().unwrap());
+        extra = 2 * (6 + 2 * a_max) * cfg.slot_us() + 3 * (cfg.slot_us() + cfg.bits_us(100));
+    }
+    let mut left = false;
+    let deadline = pop_stable_at + t_conv_us(cfg) + extra;
+    let n = expect.len();
     let rot = rotation_bound_us(cfg, n);
     let window = 3 * (i64::from(cfg.gap) + 2 + i64::from(cfg.hsa)) * rot;
     let mut converged_at: Option<i64> = None;
@@ -25,6 +40,12 @@ pub fn converge_case(cfg: &RingCfg, sim: &mut Sim, obs: &mut Obs) -> CaseResult 
             // not converged in time: report the state
             let why = agreement(sim, &expect).err().unwrap_or_default();
             fail!("not-converged", "no agreement on the LAS {:?} within T_conv = {} Tslot after the population became stable: {}", expect, t_conv_us(cfg) / slot, why);
+        }
+        if let Some((k, at)) = leave {
+            if !left && tn >= at {
+                sim.stop_station(k);
+                left = true;
+            }
         }
         let ev = sim.step();
         let Some(Event::Polled(_)) = ev else { continue };
@@ -52,8 +73,10 @@ pub fn converge_case(cfg: &RingCfg, sim: &mut Sim, obs: &mut Obs) -> CaseResult 
     };
     // token order over the stability window (skip one rotation after the convergence instant)
     let b = sim.bus.0.borrow();
-    let passes = token_order_ok(&b.trace, (c + rot) * 1000, &expect).map_err(|e| Failure::new("token-order", format!("after convergence at {} us: {}", c, e)))?;
-    ensure!(passes as usize >= 2 * n, "token-order", "only {} token passes in the stability window of {} us", passes, window);
+    if n >= 2 {
+        let passes = token_order_ok(&b.trace, (c + rot) * 1000, &expect).map_err(|e| Failure::new("token-order", format!("after convergence at {} us: {}", c, e)))?;
+        ensure!(passes as usize >= 2 * n, "token-order", "only {} token passes in the stability window of {} us", passes, window);
+    }
     obs.count("converged_after_slots", ((c - pop_stable_at) / slot).max(0) as u64);
     obs.count("t_conv_slots", (t_conv_us(cfg) / slot) as u64);
     Ok(())
@@ -67,7 +90,21 @@ fn join_case(t: &mut Tape, obs: &mut Obs, max_hsa_extra: u64) -> CaseResult {
         obs.label("passive-stations-inside-gap");
     }
     let sorted = cfg.sorted_addrs();
-    converge_case(&cfg, &mut sim, obs)?;
+    // in a quarter of the cases one station - possibly the only ring member while the others are still
+    // listening their way in - leaves for good; the population is stable from then on
+    let leave = if !t.chance(3, 4) {
+        let latest = cfg.stations.iter().map(|s| s.online_at_us).max().unwrap_or(0);
+        // often the station that was there first, shortly after the last joiner has come online (it may
+        // be ready by then but not yet polled)
+        let first = (0..cfg.stations.len()).min_by_key(|i| cfg.stations[*i].online_at_us).unwrap();
+        let k = if t.bool() { first } else { t.below(cfg.stations.len() as u64) as usize };
+        let at = if t.bool() { latest + cfg.slot_us() * (2 + t.below(80) as i64) } else { (latest - cfg.slot_us() * 50).max(0) + cfg.slot_us() * t.below(600) as i64 };
+        obs.label("a-station-leaves-for-good");
+        Some((k, at))
+    } else {
+        None
+    };
+    converge_case_leave(&cfg, &mut sim, leave, obs)?;
     if sorted.contains(&(cfg.hsa - 1)) {
         obs.label("station-at-hsa-1");
     }
